@@ -52,6 +52,8 @@ func c15IsGlobalLoad(v ssa.Value, pkg, name string) bool {
 }
 
 func runC15(c *an.Ctx) {
+	c15ResolveHamt(c.P)
+	c16ResolveIO(c.P)
 	c15ResolveRoles(c)
 	c15NotFoundBasic(c)
 	c15NotFoundHamt(c)
@@ -69,7 +71,7 @@ func runC15(c *an.Ctx) {
 func c15NotFoundBasic(c *an.Ctx) {
 	p := c.P
 	const md = "ipld/merkledag"
-	fNode := p.Field(c16IO, "BasicDirectory", "node")
+	fNode := c16IOR.bNode
 	if !c.Need(fNode != nil, "BasicDirectory.node") {
 		return
 	}
@@ -78,7 +80,7 @@ func c15NotFoundBasic(c *an.Ctx) {
 	if !c.Need(it != nil, "io.Directory interface") {
 		return
 	}
-	env := &c17Env{p: p, fNode: fNode, fTot: p.Field(c16IO, "BasicDirectory", "totalLinks"), upd: p.Func(c16IO, "BasicDirectory", "updateEstimatedSize"), comp: p.Func(c16IO, "BasicDirectory", "computeEstimatedSizeAndTotalLinks"), mut: map[*ssa.Function]bool{}, byName: true}
+	env := &c17Env{p: p, fNode: fNode, fTot: c16IOR.bTot, upd: c17Upd(p), comp: c17Comp(p), mut: map[*ssa.Function]bool{}, byName: true}
 	n := 0
 	isIface := map[string]bool{}
 	for i := 0; i < it.NumMethods(); i++ {
@@ -159,7 +161,7 @@ func c15NotFoundBasic(c *an.Ctx) {
 					}
 					ok = moved
 				}
-				c.Check(ok, "O1", "R-SIB", name, an.Callee(k).Name+"-error=>not-ErrLinkNotFound", rs.At.Pos(),
+				c.Check(ok, "O1", "R-SIB", name, c15KeyName(k, "lookup-helper")+"-error=>not-ErrLinkNotFound", rs.At.Pos(),
 					"raw ProtoNode error leaves the method only where it is not ErrLinkNotFound",
 					"BasicDirectory."+f.Name()+" can return merkledag.ErrLinkNotFound from "+an.Callee(k).Name+" unmapped: the Directory interface promises os.ErrNotExist for a missing name (callers test errors.Is(err, os.ErrNotExist); AddChild of a new name would fail)")
 			}
@@ -208,9 +210,8 @@ func c15NotFoundBasic(c *an.Ctx) {
 
 // ---- O1 (hamt)
 func c15NotFoundHamt(c *an.Ctx) {
-	p := c.P
 	getV, swapV, ins := c15GetFn(c), c15SwapFn(c), c15InsertFn(c)
-	fChildren := p.Field(c15H, "childer", "children")
+	fChildren := c15HR.fChildren
 	if !c.Need(getV != nil && swapV != nil && ins != nil && fChildren != nil, "hamt.Shard.getValue, swapValue, childer.insert, childer.children") {
 		return
 	}
@@ -289,7 +290,7 @@ func c15NotFoundHamt(c *an.Ctx) {
 // ---- O2
 func c15Childer(c *an.Ctx) {
 	p := c.P
-	fCh, fLn, fBf := p.Field(c15H, "childer", "children"), p.Field(c15H, "childer", "links"), p.Field(c15H, "childer", "bitfield")
+	fCh, fLn, fBf := c15HR.fChildren, c15HR.fLinks, c15HR.fBitfield
 	sliceIdx := c15RoleFn("sliceIndex")
 	if !c.Need(fCh != nil && fLn != nil && fBf != nil && sliceIdx != nil, "childer.{children,links,bitfield,sliceIndex}") {
 		return
@@ -507,14 +508,13 @@ func c15SameExpr(a, b ssa.Value) bool {
 }
 
 func c15LinkTypeConst(c *an.Ctx, name string) constant.Value {
-	pk := c.P.Pkg(c15H)
-	if pk == nil {
+	if c15HR == nil {
 		return nil
 	}
-	if k, ok := pk.Types.Scope().Lookup(name).(*types.Const); ok {
-		return k.Val()
+	if name == "shardLink" {
+		return c15HR.kShard
 	}
-	return nil
+	return c15HR.kValue
 }
 
 // c15TypeEdges: edges on which the link type returned by call equals one of ks.
@@ -654,9 +654,8 @@ func (fm *c15Fam) argIs(f *ssa.Function, v ssa.Value, pred func(*ssa.Function, s
 }
 
 func c15Swap(c *an.Ctx) {
-	p := c.P
 	swapV := c15SwapFn(c)
-	fTS, fB, fKey, fVal, fCons := p.Field(c15H, "Shard", "tableSize"), p.Field(c15H, "Shard", "builder"), p.Field(c15H, "Shard", "key"), p.Field(c15H, "Shard", "val"), p.Field(c15H, "hashBits", "consumed")
+	fTS, fB, fKey, fVal, fCons := c15HR.fTableSize, c15HR.fBuilder, c15HR.fKey, c15HR.fVal, c15HR.fConsumed
 	if !c.Need(swapV != nil && fTS != nil && fB != nil && fKey != nil && fVal != nil && fCons != nil, "swapValue (Shard method consuming hash bits and inserting into the childer), Shard.{tableSize,builder,key,val}, hashBits.consumed") {
 		return
 	}
@@ -698,7 +697,7 @@ func c15Swap(c *an.Ctx) {
 		recv := f.Params[0]
 		var hv, key *ssa.Parameter
 		for _, par := range f.Params[1:] {
-			if an.TypeIs(par.Type(), c15H, "hashBits") {
+			if c15HR.isHashBits(par.Type()) {
 				hv = par
 			}
 			if an.IsString(par.Type()) {
@@ -856,7 +855,7 @@ func c15SwapFn(c *an.Ctx) *ssa.Function {
 	}
 	var found *ssa.Function
 	for _, f := range c.P.Methods(c15H, "Shard") {
-		if len(an.Calls(f, an.M(c15H, "hashBits", "Next"))) > 0 && c15LinkParam(f) != nil {
+		if len(an.Calls(f, an.M(c15H, c15HR.hashBitsName(), "Next"))) > 0 && c15LinkParam(f) != nil {
 			if found != nil {
 				return nil
 			}
@@ -874,7 +873,7 @@ func c15GetFn(c *an.Ctx) *ssa.Function {
 	}
 	var found *ssa.Function
 	for _, f := range c.P.Methods(c15H, "Shard") {
-		if len(an.Calls(f, an.M(c15H, "hashBits", "Next"))) == 0 || c15LinkParam(f) != nil {
+		if len(an.Calls(f, an.M(c15H, c15HR.hashBitsName(), "Next"))) == 0 || c15LinkParam(f) != nil {
 			continue
 		}
 		for _, par := range f.Params {
@@ -892,7 +891,7 @@ func c15GetFn(c *an.Ctx) *ssa.Function {
 // ---- O5
 func c15Prefix(c *an.Ctx) {
 	p := c.P
-	fPad, fMax, fTS, fLg := p.Field(c15H, "Shard", "prefixPadStr"), p.Field(c15H, "Shard", "maxpadlen"), p.Field(c15H, "Shard", "tableSize"), p.Field(c15H, "Shard", "tableSizeLg2")
+	fPad, fMax, fTS, fLg := c15HR.fPrefixPad, c15HR.fMaxpadlen, c15HR.fTableSize, c15HR.fTableSizeLg2
 	if !c.Need(fPad != nil && fMax != nil && fTS != nil && fLg != nil, "Shard.{prefixPadStr,maxpadlen,tableSize,tableSizeLg2}") {
 		return
 	}
@@ -988,7 +987,7 @@ func c15Prefix(c *an.Ctx) {
 	// hash bits per level
 	nNext := 0
 	for _, f := range p.Methods(c15H, "Shard") {
-		for _, call := range an.Calls(f, an.M(c15H, "hashBits", "Next")) {
+		for _, call := range an.Calls(f, an.M(c15H, c15HR.hashBitsName(), "Next")) {
 			nNext++
 			fl, b := an.LoadedField(an.Args(call)[0])
 			c.Check(fl == fLg && an.SameObj(b, f.Params[0]), "O5", "R-FLOW", an.FuncName(f), "Next(ds.tableSizeLg2)", call.Pos(),
@@ -1081,7 +1080,7 @@ func c15Conversions(c *an.Ctx) {
 						ok = true
 					}
 				}
-				c.Check(ok, "O6", "R-FLOW", an.FuncName(g), an.Callee(call).Name+"(x.Name,x)", call.Pos(),
+				c.Check(ok, "O6", "R-FLOW", an.FuncName(g), c15KeyName(call, "insert-entry")+"(x.Name,x)", call.Pos(),
 					"every link is re-inserted under its own name", "a Basic<->HAMT conversion inserts a link under a name that is not that link's own Name: entries are renamed or overwrite each other when the directory switches representation")
 				// an insertion error aborts the conversion
 				errNonNil := an.NilEdges(g, an.ErrResult(call), false)
@@ -1109,7 +1108,7 @@ func c15Conversions(c *an.Ctx) {
 					if nRet == 0 || an.Reaches(g, call, call, nil, nil) {
 						okErr = false
 					}
-					c.Check(okErr, "O6", "R-DOM", an.FuncName(g), an.Callee(call).Name+"-error-aborts", call.Pos(),
+					c.Check(okErr, "O6", "R-DOM", an.FuncName(g), c15KeyName(call, "insert-entry")+"-error-aborts", call.Pos(),
 						"the insertion error is returned as is", "a Basic<->HAMT conversion goes on (or reports success) after inserting one entry failed: the converted directory silently lacks entries")
 					continue
 				}
@@ -1121,7 +1120,7 @@ func c15Conversions(c *an.Ctx) {
 				if okErr && an.EdgeLeadsTo(errNonNil, call, nil, nil) {
 					okErr = false // continues with the next link
 				}
-				c.Check(okErr, "O6", "R-DOM", an.FuncName(g), an.Callee(call).Name+"-error-aborts", call.Pos(),
+				c.Check(okErr, "O6", "R-DOM", an.FuncName(g), c15KeyName(call, "insert-entry")+"-error-aborts", call.Pos(),
 					"a failed insertion aborts the conversion", "a Basic<->HAMT conversion goes on (or reports success) after inserting one entry failed: the converted directory silently lacks entries")
 			}
 		}
@@ -1169,7 +1168,7 @@ func c15Conversions(c *an.Ctx) {
 // ---- O7
 func c15Enumerations(c *an.Ctx) {
 	p := c.P
-	fKey := p.Field(c15H, "Shard", "key")
+	fKey := c15HR.fKey
 	if !c.Need(fKey != nil, "Shard.key") {
 		return
 	}
@@ -1210,7 +1209,7 @@ func c15Enumerations(c *an.Ctx) {
 func c15Serialise(c *an.Ctx) {
 	p := c.P
 	const md = "ipld/merkledag"
-	fKey, fMax, fBf, fTS := p.Field(c15H, "Shard", "key"), p.Field(c15H, "Shard", "maxpadlen"), p.Field(c15H, "childer", "bitfield"), p.Field(c15H, "Shard", "tableSize")
+	fKey, fMax, fBf, fTS := c15HR.fKey, c15HR.fMaxpadlen, c15HR.fBitfield, c15HR.fTableSize
 	if !c.Need(fKey != nil && fMax != nil && fBf != nil && fTS != nil, "Shard.{key,maxpadlen,tableSize}, childer.bitfield") {
 		return
 	}
@@ -1228,22 +1227,32 @@ func c15Serialise(c *an.Ctx) {
 			nm, lk := args[0], args[1]
 			ok, why := false, "the name is not linkNamePrefix(slot) + label"
 			var slot ssa.Value
+			pairs := [][2]ssa.Value{{nil, lk}}
 			if b, isB := nm.(*ssa.BinOp); isB && b.Op == token.ADD {
 				if pc, isP := an.IsCallTo(b.X, c15M("linkNamePrefix")); isP && an.Recv(pc) == ssa.Value(recv) {
 					slot = an.Args(pc)[0]
 					why = "the prefix is not that of the slot tested with childer.has on this path"
 					if c15GuardedByHas(p.Methods(c15H, "Shard"), f, a, slot, 0) {
 						why = "the label is neither the key of the child whose Link() is written nor the written link's own name cut at maxpadlen"
-						// label
-						if fl, base := an.LoadedField(b.Y); fl == fKey {
-							if lc, isL := an.IsCallTo(lk, an.M(c15H, "Shard", "Link")); isL && an.SameObj(an.Recv(lc), base) {
-								ok = true
+						// label and link may be carried to the call in a small local
+						// struct assigned on each branch: check every (label, link) pair
+						pairs = c15LabelLinkPairs(b.Y, lk)
+						ok = len(pairs) > 0
+						for _, pr := range pairs {
+							good := false
+							if fl, base := an.LoadedField(pr[0]); fl == fKey {
+								if lc, isL := an.IsCallTo(pr[1], an.M(c15H, "Shard", "Link")); isL && an.SameObj(an.Recv(lc), base) {
+									good = true
+								}
+							} else if sl, isS := pr[0].(*ssa.Slice); isS && sl.Low != nil && sl.High == nil {
+								flN, baseN := an.LoadedField(sl.X)
+								flL, _ := an.LoadedField(sl.Low)
+								if flN != nil && flN.Name() == "Name" && an.SameObj(baseN, pr[1]) && flL == fMax {
+									good = true
+								}
 							}
-						} else if sl, isS := b.Y.(*ssa.Slice); isS && sl.Low != nil && sl.High == nil {
-							flN, baseN := an.LoadedField(sl.X)
-							flL, _ := an.LoadedField(sl.Low)
-							if flN != nil && flN.Name() == "Name" && an.SameObj(baseN, lk) && flL == fMax {
-								ok = true
+							if !good {
+								ok = false
 							}
 						}
 					}
@@ -1253,23 +1262,26 @@ func c15Serialise(c *an.Ctx) {
 				"child written under the prefix of its own slot and its own label",
 				"Shard."+f.Name()+" writes a child link whose name is not built as linkNamePrefix(<slot tested with has()>)+<label of that very child>: "+why+". The i-th set bit of the bitfield is matched with the i-th link after sorting by name, so a link carrying a stale or foreign prefix is attributed to the wrong slot after a reload (names no longer resolve, or resolve to another entry)")
 			// the written child/link is taken at the dense slice counter
-			var at ssa.Value
-			if lc, isL := an.IsCallTo(lk, an.M(c15H, "Shard", "Link")); isL {
-				if cc, isC := an.IsCallTo(an.Recv(lc), c15M("child")); isC {
-					at = an.Args(cc)[0]
-				}
-			} else if cc, isC := an.IsCallTo(lk, c15M("link")); isC {
-				at = an.Args(cc)[0]
-			}
 			if slot == nil {
 				continue // reported above
 			}
-			okAt, whyAt := false, "the link written is not childer.child(i).Link() / childer.link(i)"
-			if at != nil {
-				whyAt = "the slice position is the table index itself"
-				if at != slot {
-					whyAt = "the slice counter is not advanced exactly on the has()==true paths"
-					okAt = c15Dense(p.Methods(c15H, "Shard"), f, at, slot, 0)
+			okAt, whyAt := len(pairs) > 0, ""
+			for _, pr := range pairs {
+				var at ssa.Value
+				if lc, isL := an.IsCallTo(pr[1], an.M(c15H, "Shard", "Link")); isL {
+					if cc, isC := an.IsCallTo(an.Recv(lc), c15M("child")); isC {
+						at = an.Args(cc)[0]
+					}
+				} else if cc, isC := an.IsCallTo(pr[1], c15M("link")); isC {
+					at = an.Args(cc)[0]
+				}
+				switch {
+				case at == nil:
+					okAt, whyAt = false, "the link written is not childer.child(i).Link() / childer.link(i)"
+				case at == slot:
+					okAt, whyAt = false, "the slice position is the table index itself"
+				case !c15Dense(p.Methods(c15H, "Shard"), f, at, slot, 0):
+					okAt, whyAt = false, "the slice counter is not advanced exactly on the has()==true paths"
 				}
 			}
 			c.Check(okAt, "O8", "R-FLOW", name, an.Callee(a).Name+":child-at-dense-slice-counter", a.Pos(),
@@ -1417,7 +1429,7 @@ func c15DenseCounter(f *ssa.Function, ctr, slot ssa.Value) bool {
 func c15Reload(c *an.Ctx) {
 	p := c.P
 	var load, mk *ssa.Function
-	for _, f := range p.Methods(c15H, "childer") {
+	for _, f := range p.Methods(c15H, c15HR.childerName()) {
 		for _, bc := range an.AllCalls(f) {
 			if an.Callee(bc).Name == "SetBytes" && strings.Contains(an.Callee(bc).Pkg, "go-bitfield") {
 				mk = f
@@ -1431,7 +1443,7 @@ func c15Reload(c *an.Ctx) {
 			}
 		}
 	}
-	fCh, fLn, fBf := p.Field(c15H, "childer", "children"), p.Field(c15H, "childer", "links"), p.Field(c15H, "childer", "bitfield")
+	fCh, fLn, fBf := c15HR.fChildren, c15HR.fLinks, c15HR.fBitfield
 	if !c.Need(load != nil && mk != nil && fCh != nil && fLn != nil && fBf != nil, "NewHamtFromDag, childer.makeChilder") {
 		return
 	}
@@ -1534,12 +1546,12 @@ func c15Reload(c *an.Ctx) {
 // c15InsertFn finds childer.insert by role: the childer method that grows the
 // children slice with slices.Insert.
 func c15InsertFn(c *an.Ctx) *ssa.Function {
-	if f := c.P.Func(c15H, "childer", "insert"); f != nil {
+	if f := c.P.Func(c15H, c15HR.childerName(), "insert"); f != nil {
 		return f
 	}
-	fCh := c.P.Field(c15H, "childer", "children")
+	fCh := c15HR.fChildren
 	var found *ssa.Function
-	for _, f := range c.P.Methods(c15H, "childer") {
+	for _, f := range c.P.Methods(c15H, c15HR.childerName()) {
 		for _, st := range an.FieldStores(f, fCh) {
 			if op, _ := c15SliceOp(st.Val); op == "Insert" && c15LinkParam(f) != nil {
 				if found != nil && found != f {
@@ -1568,17 +1580,21 @@ func c15M(role string) an.Matcher {
 		"set": {"childer", "set"}, "setLink": {"childer", "setLink"}, "sliceIndex": {"childer", "sliceIndex"},
 		"makeShard": {"", "makeShard"}, "newConsumedHashBits": {"", "newConsumedHashBits"},
 	}[role]
-	if f := c15Roles[role]; f != nil {
-		return an.M(c15H, conv[0], f.Name())
+	recv := conv[0]
+	if recv == "childer" {
+		recv = c15HR.childerName()
 	}
-	return an.M(c15H, conv[0], conv[1])
+	if f := c15Roles[role]; f != nil {
+		return an.M(c15H, recv, f.Name())
+	}
+	return an.M(c15H, recv, conv[1])
 }
 
 func c15ResolveRoles(c *an.Ctx) {
 	p := c.P
 	c15Roles = map[string]*ssa.Function{}
-	fCh, fLn := p.Field(c15H, "childer", "children"), p.Field(c15H, "childer", "links")
-	fPad := p.Field(c15H, "Shard", "prefixPadStr")
+	fCh, fLn := c15HR.fChildren, c15HR.fLinks
+	fPad := c15HR.fPrefixPad
 	sig := func(f *ssa.Function) (params []types.Type, results []types.Type) {
 		ps := f.Signature.Params()
 		for i := 0; i < ps.Len(); i++ {
@@ -1608,7 +1624,7 @@ func c15ResolveRoles(c *an.Ctx) {
 	}
 	roles := []role{
 		{"childLinkType", "Shard", "childLinkType", func(f *ssa.Function, ps, rs []types.Type) bool {
-			return len(rs) == 2 && an.TypeIs(rs[0], c15H, "linkType") && an.IsErrorType(rs[1])
+			return len(rs) == 2 && c15HR.isLinkType(rs[0]) && an.IsErrorType(rs[1])
 		}},
 		{"isValueNode", "Shard", "isValueNode", func(f *ssa.Function, ps, rs []types.Type) bool { return len(ps) == 0 && len(rs) == 1 && isBool(rs[0]) }},
 		{"linkNamePrefix", "Shard", "linkNamePrefix", func(f *ssa.Function, ps, rs []types.Type) bool {
@@ -1645,10 +1661,13 @@ func c15ResolveRoles(c *an.Ctx) {
 			return fPad != nil && len(an.FieldStores(f, fPad)) > 0
 		}},
 		{"newConsumedHashBits", "", "newConsumedHashBits", func(f *ssa.Function, ps, rs []types.Type) bool {
-			return len(ps) == 2 && an.IsString(ps[0]) && isInt(ps[1]) && len(rs) == 1 && an.TypeIs(rs[0], c15H, "hashBits")
+			return len(ps) == 2 && an.IsString(ps[0]) && isInt(ps[1]) && len(rs) == 1 && c15HR.isHashBits(rs[0])
 		}},
 	}
 	for _, r := range roles {
+		if r.recv == "childer" {
+			r.recv = c15HR.childerName()
+		}
 		if f := p.Func(c15H, r.recv, r.conv); f != nil {
 			c15Roles[r.name] = f
 			continue
@@ -1674,4 +1693,76 @@ func c15ResolveRoles(c *an.Ctx) {
 			c15Roles[r.name] = found[0]
 		}
 	}
+}
+
+// c15LabelLinkPairs: the (label, link) value pairs that can reach a call whose
+// two operands are the fields of one small local struct variable (assigned as
+// a whole, from a composite literal, on each branch). For plain operands it is
+// the single pair itself.
+func c15LabelLinkPairs(label, link ssa.Value) [][2]ssa.Value {
+	single := [][2]ssa.Value{{label, link}}
+	fieldOfLocal := func(v ssa.Value) (*ssa.Alloc, int, bool) {
+		u, ok := v.(*ssa.UnOp)
+		if !ok || u.Op != token.MUL {
+			return nil, 0, false
+		}
+		fa, ok := u.X.(*ssa.FieldAddr)
+		if !ok {
+			return nil, 0, false
+		}
+		al, ok := fa.X.(*ssa.Alloc)
+		return al, fa.Field, ok
+	}
+	e1, i1, ok1 := fieldOfLocal(label)
+	e2, i2, ok2 := fieldOfLocal(link)
+	if !ok1 || !ok2 || e1 != e2 || e1.Referrers() == nil {
+		return single
+	}
+	fieldStore := func(al *ssa.Alloc, idx int) []*ssa.Store {
+		var out []*ssa.Store
+		for _, r := range *al.Referrers() {
+			if fa, ok := r.(*ssa.FieldAddr); ok && fa.Field == idx && fa.Referrers() != nil {
+				for _, rr := range *fa.Referrers() {
+					if st, ok := rr.(*ssa.Store); ok && st.Addr == ssa.Value(fa) {
+						out = append(out, st)
+					}
+				}
+			}
+		}
+		return out
+	}
+	var pairs [][2]ssa.Value
+	for _, r := range *e1.Referrers() {
+		st, ok := r.(*ssa.Store)
+		if !ok || st.Addr != ssa.Value(e1) {
+			continue
+		}
+		// whole-struct assignment from a composite literal temp
+		ld, ok := st.Val.(*ssa.UnOp)
+		if !ok || ld.Op != token.MUL {
+			return single
+		}
+		tmp, ok := ld.X.(*ssa.Alloc)
+		if !ok || tmp.Referrers() == nil {
+			return single
+		}
+		ls, ks := fieldStore(tmp, i1), fieldStore(tmp, i2)
+		if len(ls) != 1 || len(ks) != 1 {
+			return single
+		}
+		pairs = append(pairs, [2]ssa.Value{ls[0].Val, ks[0].Val})
+	}
+	// field-wise assignments on the variable itself: pair the stores of one block
+	ls, ks := fieldStore(e1, i1), fieldStore(e1, i2)
+	for _, l := range ls {
+		for _, k := range ks {
+			if l.Block() == k.Block() {
+				pairs = append(pairs, [2]ssa.Value{l.Val, k.Val})
+			}
+		}
+	}
+	if len(pairs) == 0 || len(ls) != len(ks) {
+		return single
+	}
+	return pairs
 }
